@@ -516,6 +516,70 @@ func (g *gen) statement() string {
 	return s
 }
 
+// ---------------------------------------------------------------- token adjacency family (deterministic)
+// Printed text puts some tokens directly next to each other (UnaryExpr "%s%v", "%v->%v", "%v[%v]", "%v.%v", …) and several
+// operators are prefixes of longer tokens (! ~ -> !~, - - -> comment, < = -> <=, : : -> ::, - > -> ->, | | -> ||, & & -> &&,
+// ~ * -> ~*, < > -> <>, ! = -> !=).  The family enumerates, independent of the seed:
+//  (A) every chain of one, two and three unary operators (- + ~ !), also under NOT, over every operand kind, in a select
+//      item and in WHERE;
+//  (B) every binary / comparison operator followed by every unary operator, written with all blanks, with no blanks at all
+//      and with a blank only between the two operators, over three operand kinds.
+//  (C) signed numeric literals (the folded IntVal "-1" node) in every operand position.
+// Statements the parser rejects are skipped (counted); accepted ones go through the round-trip oracle and, when their tree
+// is in the model fragment, through the three ties.
+func adjacencyFamily() []string {
+	unary := []string{"-", "+", "~", "!"}
+	operands := []string{"a", "t.a", "1", "1.5", "'s'", "x'1f'", "0x1F", "null", "true", "(a)", "(a + 1)", "f(a)", "a->b", "a[1]", "a::string",
+		"(select 1 from t)", "interval 1 day", "case when a then 1 end", "?", "(1, 2)", "b'01'"}
+	var chains []string
+	for _, u1 := range unary {
+		chains = append(chains, u1)
+		for _, u2 := range unary {
+			chains = append(chains, u1+" "+u2, u1+u2)
+			for _, u3 := range unary {
+				chains = append(chains, u1+" "+u2+" "+u3, u1+u2+u3)
+			}
+		}
+	}
+	var out []string
+	for _, c := range chains {
+		for _, o := range operands {
+			e := c + o
+			if strings.HasSuffix(c, " ") {
+				e = c + o
+			}
+			out = append(out, "select "+e+" from t where "+e)
+			out = append(out, "select not "+e+", "+c+" "+o+" from t")
+		}
+	}
+	binary := []string{"+", "-", "*", "/", "%", "&", "|", "^", "<<", ">>", "=", "<", ">", "<=", ">=", "!=", "<>", "<=>", "~", "~*", "!~", "!~*",
+		"&&", "||", "and", "or", "like", "regexp", "div", "in", "is", "->", "::"}
+	for _, b := range binary {
+		for _, u := range append([]string{""}, unary...) {
+			for _, o := range []string{"b", "1", "(b)"} {
+				out = append(out,
+					"select a "+b+" "+u+" "+o+" from t",
+					"select a"+b+u+o+" from t",
+					"select a "+b+u+" "+o+" from t where a"+b+" "+u+o)
+			}
+		}
+	}
+	// (C) signed numeric literals in every operand position: the grammar folds '-' INTEGRAL into one IntVal node ("-1"), which the
+	// printer writes without parentheses in front of / behind tighter-binding syntax (::, ->, [..], convert(), function arguments …)
+	lits := []string{"-1", "- 1", "-1.5", "- -1", "-0x1F", "+1", "-?"}
+	shapes := []string{"convert(%s, int)", "convert(%s, mytype)", "cast(%s as mytype)", "%s::mytype", "(%s)::mytype", "%s->a", "%s[0]", "a[%s]", "f(%s)",
+		"f(%s, %s)", "interval %s day", "a + %s", "a - %s", "a * %s", "%s * a", "%s - %s", "%s between %s and %s", "a in (%s)", "a in (%s, %s)",
+		"case %s when %s then %s else %s end", "(%s, %s)", "not %s", "%s is null", "%s like %s", "%s ~ %s", "%s = %s", "(%s)", "-%s", "- %s", "~%s"}
+	for _, l := range lits {
+		for _, sh := range shapes {
+			e := strings.ReplaceAll(sh, "%s", l)
+			out = append(out, "select "+e+" from t", "select a from t where "+e+" group by "+e+" order by "+e+" limit "+l+", "+l)
+		}
+		out = append(out, "select * from f(x => "+l+", y => "+l+") g trigger counting "+l+", after delay "+l)
+	}
+	return out
+}
+
 // ---------------------------------------------------------------- corpus + mutations
 var goString = regexp.MustCompile("\"((?:[^\"\\\\]|\\\\.)*)\"|`([^`]*)`")
 var octosqlCall = regexp.MustCompile(`octosql\s+"((?:[^"\\]|\\.)*)"`)
@@ -765,6 +829,7 @@ func runCases(f lib.Flags) error {
 	nMut := f.Cases(600, 8000)
 
 	shortestRejected := ""
+	famSeen := 0
 	handle := func(s string, insyntax bool, origin string) {
 		cf.Count("generated_" + origin)
 		o, parsed := roundTrip(s)
@@ -830,6 +895,19 @@ func runCases(f lib.Flags) error {
 			low := strings.ToLower(s)
 			nontrivial = strings.Contains(low, "trigger") || strings.Contains(low, "=>") || strings.Contains(low, "->") || strings.Contains(low, "::") || strings.Contains(low, "lookup")
 		}
+		if origin == "token_adjacency_family" && o.what == "" {
+			// all of the family goes through the round-trip oracle above; to keep the Coq side short only every fourth
+			// in-fragment statement is also listed as a case (ties), the others are counted
+			famSeen++
+			if !inModel {
+				cf.Count("token_adjacency_family_round_trip_ok_outside_model (counted, not listed as cases)")
+				return
+			}
+			if famSeen%4 != 0 {
+				cf.Count("token_adjacency_family_round_trip_ok_in_model (counted, not listed as cases)")
+				return
+			}
+		}
 		idx := cf.Add(coq, js, nontrivial)
 		for _, lc := range lexCounters {
 			if lc.re.MatchString(s) {
@@ -856,6 +934,15 @@ func runCases(f lib.Flags) error {
 		}
 	}
 
+	// the deterministic token-adjacency family: the same statements on every run, whatever the seed
+	famDone := map[string]bool{}
+	for _, st := range adjacencyFamily() {
+		st = strings.Join(strings.Fields(st), " ")
+		if !famDone[st] {
+			famDone[st] = true
+			handle(st, false, "token_adjacency_family")
+		}
+	}
 	for i := 0; i < nGen; i++ {
 		g := newGen(rng.Fork(), true)
 		handle(g.statement(), true, "grammar_model")
